@@ -41,7 +41,11 @@ def gen_history(rng, tier):
     n = sw.n_settings()
     shuffle = rng.choice([False, True, rng.randint(2, 999)])
     via = "cases" if (sw.cases and (want_sub or rng.random() < 0.45)) else "combos"
-    sown = D.SownSweep(sw, shuffle, via)
+    ctor = None
+    if via == "combos" and rng.random() < 0.15:
+        # a Crop CONSTRUCTED with a shuffle setting, sown without repeating it in the call
+        via, ctor = "combos-default", rng.choice([True, rng.randint(2, 999)])
+    sown = D.SownSweep(sw, shuffle, via, ctor)
     r = rng.random()
     if r < 0.4:
         bs, nb = rng.randint(1, n + 1), None
